@@ -12,7 +12,14 @@ SRC = "/tmp/seed_out"
 DST = "/verif/seeded"
 # a change written against one property's text that only touches what another property states
 STATED_BY = {"C04_F": ("C09", "changes only the UndirectedMultigraph edge-list constructor: C04 quantifies over sequences of the listed mutators on a constructed "
-                              "graph, 'equal to adding those edges one at a time' is C09's clause")}
+                              "graph, 'equal to adding those edges one at a time' is C09's clause"),
+             "C02_E": ("C09", "changes only the undirected-from-directed converting constructor; C02 quantifies over sequences of mutating calls on an undirected graph, "
+                              "'an undirected graph constructed from a directed one connects exactly the pairs joined in either direction' is C09's clause"),
+             "C02_F": ("C09", "changes only move assignment; 'copy construction and assignment produce independent equal graphs' is C09's clause (C02's histories are member "
+                              "calls on one object)"),
+             "C06_F": ("C07", "makes a rejected addEdge(valid, out-of-range, force=true) leave a half-edge: 'after any rejected call the graph is observably identical' is "
+                              "C07's clause. The object is then internally inconsistent (a neighbour >= getSize()), and the C06 monitor by its own rule does not judge "
+                              "operator== on such objects (that is C01/C02/C07's verdict); C16, whose histories contain rejected forced insertions, reports it as well")}
 
 
 def parse_logs():
